@@ -3,6 +3,7 @@
 from __future__ import annotations
 
 import ast
+import itertools
 import io
 import tokenize
 import typing
@@ -682,6 +683,26 @@ def enumerate_cases(tier, shard, nshards, seed):
     for j, src in enumerate(gen.SYN_PROGRAMS):
         if j % nshards == shard:
             yield {'src': src, 'sel': seed * 977 + j}
+
+    # synthetic sequences with non-ASCII elements in every sequence-capable mode: one line, broken after a comma, leading newline / indent,
+    # trailing comma, comments (byte columns != character columns on the last line is where position fix-ups go wrong)
+    elems = ('é', "'üü'", 'f(日本)', 'a.ñ', '[é, ö]', 'x')
+    seps = (', ', ',\n', ' ,\n  ', ',  # ç\n')
+    k = 0
+
+    for a, b in itertools.product(elems, repeat=2):
+        for sep in seps:
+            for lead, trail in (('', ''), ('', ','), ('\n ', ''), ('', ' ,  # ñ')):
+                body = f'{lead}{a}{sep}{b}{trail}'
+
+                for mode, frag in (('expr', body), ('expr_all', body), ('expr_slice', body), ('Tuple', body), ('Tuple_elt', body), ('pattern', body.replace('f(', 'C(').replace("'üü'", '1')),
+                                   ('_arglikes', body), ('_withitems', body), ('_decorator_list', '@' + a + '\n@' + b), ('_comprehension_ifs', f'if {a}\nif {b}'),
+                                   ('_Assign_targets', f'{a} = {b} =' if a[0] not in "'f[" and b[0] not in "'f[" else 'é = ö ='), ('_type_params', 'Té, *Uñ' + trail),
+                                   ('_aliases', f'é{sep}ñ as ö' if '#' not in sep else 'é, ñ as ö'), ('arguments', f'é{sep}ñ=1{trail}'), ('_pattern_attrlikes', f'é{sep}ñ=ö{trail}')):
+                    k += 1
+
+                    if k % nshards == shard and mode in MODES_SET:
+                        yield {'mode': mode, 'frag': frag, 'sel': seed + k, 'synthetic': True}
 
     snips = gen.snippets()
 
